@@ -275,7 +275,7 @@ func runC19(c C19Case) (st Stats, err error) {
 	var root stackage.Stack
 	if p := guard(func() {
 		v, _ := buildTracked(c.Root, "r", &all)
-		root, _ = stackage.ConvertStack(v)
+		root, _ = unwrapStack(v)
 	}); p != "" {
 		return st, violf("setup/panic", "%s", p)
 	}
@@ -451,6 +451,9 @@ func genC19(t *rapid.T, tier Tier) C19Case {
 		length := rapid.IntRange(0, 14).Draw(t, "len")
 		if depth == 0 && rapid.IntRange(0, 4).Draw(t, "long") == 0 {
 			length = rapid.IntRange(15, maxLen).Draw(t, "longlen")
+		}
+		if depth <= 1 && rapid.IntRange(0, 249).Draw(t, "huge") == 0 {
+			length = rapid.IntRange(250, 420).Draw(t, "hugelen") // past one byte's worth of positions
 		}
 		nilw := rapid.IntRange(5, 60).Draw(t, "nilweight")
 		for i := 0; i < length; i++ {
